@@ -44,7 +44,10 @@ TopLine(k, kind, name, t, r) == LET g == TopLineG(k, kind, t, r) IN
   /\ mode' = NoMode
 
 (* no <top-level command> *)
-TopNoLineG(k, t, r) == IF ~(k \in DOMAIN obj /\ Line("", t, r) \in obj[k].lines) THEN "command to be removed does not exist" ELSE ""
+TopNoLineG(k, t, r) ==
+  CASE ~(k \in DOMAIN obj /\ Line("", t, r) \in obj[k].lines) -> "command to be removed does not exist"
+    [] obj[k].lines = {Line("", t, r)} /\ Referenced(k) -> "referenced object deleted"
+    [] OTHER -> ""
 TopNoLine(k, t, r) == LET g == TopNoLineG(k, t, r) IN
   /\ err' = Latch(g)
   /\ obj' = (IF g # "" THEN obj
